@@ -70,16 +70,20 @@ def r15_1(ctx, b, rc):
     # loop rectangle: y leaf
     leaves = (ss.leaves() | ds.leaves())
     ys = [l for l in leaves if l[0] == 'field' and l[4] == 'Some' and is_call(l[1], 'Iterator::next')]
-    if not ctx.check(len(ys) == 1, R, key + '|row variable', call_line(b, bi), 'one row variable', 'cannot identify the row variable of the copy loop (fail closed)'):
+    counters = [cl for cl in dt.counter_loops(an, b) if cl['var'] in leaves and bi in cl['blocks']]
+    if not ctx.check(len(ys) + len(counters) == 1, R, key + '|row variable', call_line(b, bi), 'one row variable', 'cannot identify the row variable of the copy loop (fail closed)'):
         return None
-    y = ys[0]
-    D.closure(y)
-    rng = [x for x in D.visited if x[0] == 'agg' and x[2] and x[2].endswith('ops::Range')]
     rect = None
-    for rg in rng:
-        f = dict(rg[4])
-        ra, fa = dt.rect_fields(f['start'])
-        rb, fb = dt.rect_fields(f['end'])
+    if ys:
+        y = ys[0]
+        D.closure(y)
+        rng = [(dict(x[4])['start'], dict(x[4])['end']) for x in D.visited if x[0] == 'agg' and x[2] and x[2].endswith('ops::Range')]
+    else:
+        y = counters[0]['var']
+        rng = [(counters[0]['init'], counters[0]['bound'])]
+    for r_start, r_end in rng:
+        ra, fa = dt.rect_fields(r_start)
+        rb, fb = dt.rect_fields(r_end)
         if ra is not None and ra == rb and fa == ['min', 'y'] and fb == ['max', 'y']:
             rect = ra
     if not ctx.check(rect is not None, R, key + '|row range', call_line(b, bi), 'rows iterate R.min.y..R.max.y', 'the copy loop does not iterate min.y..max.y of one rectangle'):
@@ -149,14 +153,35 @@ def r15_2(ctx, b, rc, info):
               'the offset used to clip against the destination depends on %s only; it must be dst - src_rect.min (source pixel src_rect.min + (i,j) lands on dst + (i,j))' % ('dst' if ok_dst else 'neither dst nor src_rect.min'))
 
 
+def callback_of(ctx, name, R):
+    """how wrapper `name` builds the row callback it hands to composite_surface:
+    ('closure', body, [upvar terms]) | ('fn', body) | ('value', term) | None; plus the wrapper body/analysis and the call term"""
+    w = ctx.body(DT + name, R)
+    wan = ctx.an(w)
+    ccs = [ct for bi, d, ct in calls_in(ctx, w) if d == CS]
+    if len(ccs) != 1:
+        return None, w, wan, None
+    a = ccs[0][2]
+    cb = strip_all(a[4])
+    if cb[0] == 'mem':
+        cb = shared.resolve_mem(wan, cb)
+    if cb[0] == 'agg' and cb[1] == 'closure':
+        body = ctx.F.body(cb[2])
+        return (('closure', body, [strip_all(x[1]) for x in cb[4]]) if body is not None else None), w, wan, ccs[0]
+    if cb[0] == 'fn':
+        body = ctx.F.body(cb[1])
+        return (('fn', body) if body is not None else None), w, wan, ccs[0]
+    return ('value', cb), w, wan, ccs[0]
+
+
 def r15_3(ctx, b):
     R = 'R15.3'
     bodies = [b]
     for nm in ('copy_surface', 'blend_surface', 'blend_surface_with_alpha'):
-        w = ctx.body(DT + nm, R)
+        cb, w, wan, call = callback_of(ctx, nm, R)
         bodies.append(w)
-        c = ctx.body(DT + nm + '::{closure#0}', R)
-        bodies.append(c)
+        if cb is not None and cb[0] in ('closure', 'fn'):
+            bodies.append(cb[1])
     for bd in bodies:
         an = ctx.an(bd)
         bad = set()
@@ -185,31 +210,41 @@ def fwd(a):
 
 def r15_4(ctx):
     R = 'R15.4'
-    # closures: params (env, src, dst) -> MIR params 1,2,3
-    c = ctx.body(DT + 'copy_surface::{closure#0}', R)
-    cs = [ct for bi, d, ct in calls_in(ctx, c) if d and d.endswith('copy_from_slice')]
-    ok = len(cs) == 1 and strip_all(cs[0][2][0]) == ('param', 3) and strip_all(cs[0][2][1]) == ('param', 2)
-    ctx.check(ok, R, 'draw_target::DrawTarget::copy_surface|closure', c.loc(), 'dst.copy_from_slice(src)', 'copy_surface\'s callback is not dst.copy_from_slice(src)')
-    c = ctx.body(DT + 'blend_surface::{closure#0}', R)
-    ind = [ct for bi, d, ct in calls_in(ctx, c) if d is None]
-    ok = len(ind) == 1 and shared.upvar_index(ind[0][1][1]) == 0 and strip_all(ind[0][2][0]) == ('param', 2) and strip_all(ind[0][2][1]) == ('param', 3)
-    ctx.check(ok, R, 'draw_target::DrawTarget::blend_surface|closure', c.loc(), 'blend_fn(src, dst)', 'blend_surface\'s callback is not blend_fn(src, dst)')
-    w = ctx.body(DT + 'blend_surface', R)
-    wan = ctx.an(w)
-    ccs = [(bi, ct) for bi, d, ct in calls_in(ctx, w) if d == CS]
-    ok = len(ccs) == 1
+    # the row callbacks: a closure (params env, src, dst -> MIR 1,2,3), a local fn (src, dst -> 1,2) or a fn-pointer value
+    def blend_proc(t, wan_):
+        t = strip_all(t)
+        if t[0] == 'mem':
+            t = shared.resolve_mem(wan_, t)
+        return is_call(t, 'build_blend_proc') and t[2][0] == ('param', 5) and (wan_.callee_info(t[3]).get('subst_heads') or [None])[0] == 'raqote::draw_target::BlendRow'
+    cb, w, wan, call = callback_of(ctx, 'copy_surface', R)
+    ok = cb is not None and cb[0] in ('closure', 'fn')
     if ok:
-        a = ccs[0][1][2]
-        clo = shared.resolve_mem(wan, a[4])
-        ok = fwd(a) and clo[0] == 'agg' and clo[1] == 'closure'
-        if ok:
-            up = strip_all(clo[4][0][1])
-            ok = is_call(up, 'build_blend_proc') and up[2][0] == ('param', 5) and (wan.callee_info(up[3]).get('subst_heads') or [None])[0] == 'raqote::draw_target::BlendRow'
-    ctx.check(ok, R, 'draw_target::DrawTarget::blend_surface|wiring', w.loc(), 'composite_surface(src, src_rect, dst, |s,d| build_blend_proc::<BlendRow>(blend)(s,d))', 'blend_surface does not forward (src, src_rect, dst) with the BlendRow proc of its blend argument')
-    c = ctx.body(DT + 'blend_surface_with_alpha::{closure#0}', R)
-    cs = [ct for bi, d, ct in calls_in(ctx, c) if d and d.endswith('over_in_row')]
-    ok = len(cs) == 1 and strip_all(cs[0][2][0]) == ('param', 2) and strip_all(cs[0][2][1]) == ('param', 3) and shared.upvar_index(strip_casts(cs[0][2][2], ('IntToInt',))) == 0
-    ctx.check(ok, R, 'draw_target::DrawTarget::blend_surface_with_alpha|closure', c.loc(), 'over_in_row(src, dst, alpha)', 'blend_surface_with_alpha\'s callback is not over_in_row(src, dst, alpha)')
+        c = cb[1]
+        ps, pd = (2, 3) if cb[0] == 'closure' else (1, 2)
+        cs = [ct for bi, d, ct in calls_in(ctx, c) if d and d.endswith('copy_from_slice')]
+        ok = len(cs) == 1 and strip_all(cs[0][2][0]) in (('param', pd), ('deref', ('param', pd))) and strip_all(cs[0][2][1]) in (('param', ps), ('deref', ('param', ps)))
+        ok = ok and not [1 for a2, v2, pt2, k2 in ctx.an(c).stores if k2 == 'assign']
+    ctx.check(ok, R, 'draw_target::DrawTarget::copy_surface|closure', w.loc(), 'callback = dst.copy_from_slice(src)', 'copy_surface\'s callback is not dst.copy_from_slice(src)')
+    cb, w, wan, call = callback_of(ctx, 'blend_surface', R)
+    ok = cb is not None and call is not None and fwd(call[2])
+    if ok and cb[0] == 'closure':
+        c = cb[1]
+        ind = [ct for bi, d, ct in calls_in(ctx, c) if d is None]
+        ok = len(ind) == 1 and shared.upvar_index(ind[0][1][1]) == 0 and strip_all(ind[0][2][0]) == ('param', 2) and strip_all(ind[0][2][1]) == ('param', 3)
+        ctx.check(ok, R, 'draw_target::DrawTarget::blend_surface|closure', c.loc(), 'blend_fn(src, dst)', 'blend_surface\'s callback is not blend_fn(src, dst)')
+        ok = ok and len(cb[2]) >= 1 and blend_proc(cb[2][0], wan)
+    elif ok and cb[0] == 'value':
+        ok = blend_proc(cb[1], wan)       # the BlendRow proc itself is the callback
+    else:
+        ok = False
+    ctx.check(ok, R, 'draw_target::DrawTarget::blend_surface|wiring', w.loc(), 'composite_surface(src, src_rect, dst, build_blend_proc::<BlendRow>(blend) applied to (src row, dst row))', 'blend_surface does not forward (src, src_rect, dst) with the BlendRow proc of its blend argument')
+    cb, w, wan, call = callback_of(ctx, 'blend_surface_with_alpha', R)
+    ok = cb is not None and cb[0] == 'closure'
+    if ok:
+        c = cb[1]
+        cs = [ct for bi, d, ct in calls_in(ctx, c) if d and d.endswith('over_in_row')]
+        ok = len(cs) == 1 and strip_all(cs[0][2][0]) == ('param', 2) and strip_all(cs[0][2][1]) == ('param', 3) and shared.upvar_index(strip_casts(cs[0][2][2], ('IntToInt',))) == 0
+    ctx.check(ok, R, 'draw_target::DrawTarget::blend_surface_with_alpha|closure', w.loc(), 'over_in_row(src, dst, alpha)', 'blend_surface_with_alpha\'s callback is not a closure calling over_in_row(src, dst, alpha)')
     w = ctx.body(DT + 'blend_surface_with_alpha', R)
     wan = ctx.an(w)
     ccs = [(bi, ct) for bi, d, ct in calls_in(ctx, w) if d == CS]
